@@ -149,6 +149,130 @@ class Degree(Domain):
         pass
 
 
+ODD = 'ODD'
+EVEN = 'EVEN'
+
+
+class Parity(Domain):
+    """Behaviour under x -> -x of every input: ODD (the value changes sign), EVEN (unchanged), POLY (literal zero: both).
+    A comparison whose operands change sign changes direction, so the branch taken is not the same for x and -x: only
+    equality tests and comparisons of even quantities are admitted (views that pair mirrored branches -- Min/Max, Rsi's gains
+    and losses, NET's sign count -- are outside this type system)."""
+    name = 'parity'
+
+    def lit(self, t):
+        if t[2] == 'f':
+            return POLY if t[1] == 0 else EVEN
+        return EVEN
+
+    def sentinel(self, name):
+        return EVEN
+
+    def param(self, path):
+        return EVEN
+
+    def child(self):
+        return ODD
+
+    def int_(self):
+        return EVEN
+
+    def join(self, a, b, t=None, what='joins'):
+        if a is None:
+            return b
+        if b is None:
+            return a
+        if a == TOP or b == TOP:
+            return TOP
+        if a == POLY:
+            return b
+        if b == POLY:
+            return a
+        if a == b:
+            return a
+        if t is not None:
+            self.complain('P-mix', '%s a quantity that changes sign with the input and one that does not' % what, t)
+        return TOP
+
+    def add(self, a, b, t):
+        return self.join(a, b, t, 'adds/subtracts')
+
+    def mul(self, a, b, t):
+        if a == TOP or b == TOP:
+            return TOP
+        if a == POLY or b == POLY:
+            return POLY
+        return EVEN if a == b else ODD
+
+    def div(self, a, b, t):
+        if a == TOP or b == TOP or b == POLY:
+            return TOP
+        if a == POLY:
+            return POLY
+        return EVEN if a == b else ODD
+
+    def cmp(self, a, b, t):
+        if a == TOP or b == TOP:
+            return
+        if isinstance(t, tuple) and t and t[0] == 'op' and t[1] in ('eq', 'ne'):
+            if ODD in (a, b) and EVEN in (a, b):
+                self.complain('P-cmp', 'tests a sign-changing quantity for equality with one that does not change sign', t)
+            return
+        if a == ODD or b == ODD:
+            self.complain('P-cmp', 'orders quantities that change sign with the input: the branch taken for -x is not the one taken for x', t)
+
+    def fn(self, name, args, t):
+        a = args[0] if args else EVEN
+        if a == TOP:
+            return TOP
+        if name == 'neg':
+            return a
+        if name in ('abs', 'cos', 'cosh'):
+            return EVEN if a != POLY else (POLY if name == 'abs' else EVEN)
+        if name in ('signum',):
+            # signum(0.0) = 1.0: not odd at zero
+            if a == ODD:
+                self.complain('P-fn', 'signum of a sign-changing quantity (signum(0) = 1 is not odd)', t)
+                return TOP
+            return EVEN
+        if name in ('tanh', 'sin', 'tan', 'atan', 'asin', 'sinh', 'cbrt', 'to_degrees', 'to_radians', 'recip'):
+            return a
+        if name in ('is_nan', 'is_finite', 'is_infinite', 'is_normal'):
+            return EVEN
+        if name in ('is_sign_negative', 'is_sign_positive'):
+            if a == ODD:
+                self.complain('P-cmp', 'tests the sign of a sign-changing quantity', t)
+            return EVEN
+        if name in ('sqrt', 'exp', 'ln', 'log2', 'log10', 'exp2', 'ln_1p', 'exp_m1', 'acos', 'floor', 'ceil', 'round', 'trunc', 'fract', 'to_int', 'powf'):
+            if any(x == ODD for x in args):
+                self.complain('P-fn', '%s of a quantity that changes sign with the input' % name, t)
+                return TOP
+            return EVEN
+        if name in ('max', 'min', 'clamp', 'copysign'):
+            if any(x == ODD for x in args):
+                self.complain('P-fn', '%s of sign-changing quantities: max(-a, -b) = -min(a, b), a mirrored branch this type system does not pair' % name, t)
+                return TOP
+            return EVEN
+        if name == 'hypot' and len(args) == 2:
+            return EVEN
+        if name == 'mul_add' and len(args) == 3:
+            return self.add(self.mul(args[0], args[1], t), args[2], t)
+        if name == 'powi':
+            return a
+        self.complain('P-unknown-fn', 'function %s has no parity rule' % name, t)
+        return TOP
+
+    def powi(self, a, k):
+        if a in (TOP, POLY):
+            return a
+        if a == EVEN:
+            return EVEN
+        return EVEN if k % 2 == 0 else ODD
+
+    def cond(self, t):
+        pass
+
+
 class Lin(Domain):
     name = 'linearity'
 
@@ -294,7 +418,7 @@ class TypeEval:
         if k == 'some':
             return self.ty(t[1])
         if k == 'none':
-            return POLY if isinstance(d, Degree) else ZERO
+            return POLY if isinstance(d, (Degree, Parity)) else ZERO
         if k in ('payload',):
             return self.ty(t[1])
         if k == 'is_some':
@@ -367,7 +491,7 @@ class TypeEval:
     def tyb(self, t):
         r = self.ty(t)
         if r is None:
-            return POLY if isinstance(self.d, Degree) else ZERO
+            return POLY if isinstance(self.d, (Degree, Parity)) else ZERO
         return r
 
     def op(self, t):
